@@ -10,7 +10,11 @@ R2 `executor.run()` (and token injection / restore) happen after the lock scope 
    inside the recovery workflow re-enters `_recover` and needs the same locks.
 R3 one request per job: `get_request` has no suspension point; every `RecoveryRequest(...)`
    constructed in the program is stored in `_retry_requests` under the requested job name by the
-   statement that creates it; nobody else mutates `_retry_requests`.
+   statement that creates it; nobody else mutates `_retry_requests`; every `return` yields the registered request:
+   `setdefault`, a subscript under a known membership / after a store, or a local whose reaching definitions
+   (flow-sensitive) are such, a `<registry>.get(job)` answer that reaches the return only through an outcome
+   establishing `is not None` (CFG edges, not lexical nesting) or a fresh request that is stored under the job name on
+   every path to the return.
 R4 `is_recovering` is true exactly for ROLLBACK, RUNNING, FIREABLE (P10 fold over Status).
 R5 hand-over in `_synchronize_workflows`: in the recovering branch the *running* recovery
    workflow's port gets a PROPAGATE rule towards the new workflow's port keyed by the job token's
@@ -43,7 +47,7 @@ from __future__ import annotations
 import ast
 
 from ..cfg import NORMAL
-from ..dataflow import origins
+from ..dataflow import defs_of, origins, reaching_defs
 from ..model import ancestors, dotted, parent, unparse
 from ..selftest import V
 from ._util_D import (
@@ -267,6 +271,123 @@ def r2(ctx):
 # --------------------------------------------------------------------------- R3
 
 
+def _is_registry(e) -> bool:
+    return e is not None and unparse(e).endswith("._retry_requests")
+
+
+def _not_none_fact(e, v: bool, name: str, truthy_ok: bool) -> bool:
+    """The fact `e evaluates to v` establishes that local `name` is not None: `name is None` false, `name is not None`
+    true (also `==` / `!=`, operands swapped, the walrus `(name := ..)` in place of the name); bare `name` true when
+    objects of the class are always truthy."""
+
+    def var(x):
+        if isinstance(x, ast.NamedExpr) and isinstance(x.target, ast.Name):
+            return x.target.id
+        return x.id if isinstance(x, ast.Name) else None
+
+    if isinstance(e, ast.Compare) and len(e.ops) == 1 and isinstance(e.ops[0], (ast.Is, ast.IsNot, ast.Eq, ast.NotEq)):
+        for x, c in ((e.left, e.comparators[0]), (e.comparators[0], e.left)):
+            if isinstance(c, ast.Constant) and c.value is None and var(x) == name:
+                return (not v) if isinstance(e.ops[0], (ast.Is, ast.Eq)) else v
+        return False
+    return truthy_ok and var(e) == name and v is True
+
+
+def _local_yields_registered(p, f, name: str, ret) -> bool:
+    """`return <name>` of `f` (CFG node `ret`) yields the request registered under the requested job name: every
+    definition of the local that reaches the return (flow-sensitive) is
+      * `<registry>.setdefault(key, ..)`: the registered entry;
+      * `<registry>[key]` evaluated where `key in <registry>` is known, or after a store into the registry;
+      * `<registry>.get(key)` (no default / None), provided every path from the definition to the return on which
+        the definition survives takes an outcome of a test that establishes `<name> is not None` (guard clause,
+        if / else, `not` forms alike; walked on the CFG, not on the lexical nesting): a non-None answer is the entry;
+      * a fresh `RecoveryRequest(..)`, provided every such path executes `<registry>[key] = <name>` (the explicit
+        insertion the creating statement is checked against above);
+      * a plain alias of another local that does.
+    The key is the job-name parameter (through local aliases)."""
+    g = f.cfg
+    key_param = f.params[1] if len(f.params) > 1 else None
+    truthy_ok = not any(m in p.cls(c).methods for c in p.mro(REQ) if c in p.classes for m in ("__bool__", "__len__"))
+
+    def key_ok(k) -> bool:
+        return k is not None and key_param is not None and all(isinstance(strip(o), ast.Name) and strip(o).id == key_param for o in (origins(f, k) or [k]))
+
+    def node_ids(d) -> list[int]:
+        if d.kind == "param":
+            return [g.entry]
+        if d.stmt is None:
+            return []
+        return (g.node_containing(d.stmt) if d.kind == "walrus" else (g.ids_of(d.stmt) or g.node_containing(d.stmt)))
+
+    def survives_unless(nm: str, d, stop, good) -> bool:
+        """Some normal path leads from definition `d` of `nm` to the return without passing another definition of
+        `nm`, a node of `stop`, or an edge accepted by `good`."""
+        kills = {i for d2 in defs_of(f, nm) if d2 is not d and d2.stmt is not d.stmt for i in node_ids(d2)} - {ret.id}
+        seen, todo = set(), list(node_ids(d))
+        while todo:
+            i = todo.pop()
+            if i in seen:
+                continue
+            seen.add(i)
+            for b, k in g.succ[i]:
+                if k not in NORMAL or good(i, k):
+                    continue
+                if b == ret.id:
+                    return True
+                if b not in kills and b not in stop:
+                    todo.append(b)
+        return False
+
+    def go(nm: str, use, depth: int) -> bool:
+        ds = reaching_defs(f, nm, use)
+        if not ds or depth <= 0:
+            return False
+        for d in ds:
+            if d.kind not in ("assign", "walrus") or d.index is not None or d.value is None:
+                return False
+            o = strip(d.value)
+            if isinstance(o, ast.Call) and isinstance(o.func, ast.Attribute) and _is_registry(o.func.value) and o.func.attr == "setdefault" and o.args and key_ok(o.args[0]):
+                continue
+            if isinstance(o, ast.Call) and isinstance(o.func, ast.Attribute) and _is_registry(o.func.value) and o.func.attr == "get" and o.args and key_ok(o.args[0]):
+                dflt = o.args[1] if len(o.args) > 1 else next((k.value for k in o.keywords), None)
+                if dflt is not None and not (isinstance(dflt, ast.Constant) and dflt.value is None):
+                    return False
+
+                def good(i, k, nm=nm):
+                    t = g.nodes[i]
+                    return t.kind == "test" and t.ast is not None and k in ("t", "f") and any(
+                        _not_none_fact(e, v, nm, truthy_ok) for e, v in implied(t.ast, k == "t"))
+
+                if survives_unless(nm, d, set(), good):
+                    return False  # the look-up result can be returned although it may be None
+                continue
+            if isinstance(o, ast.Subscript) and _is_registry(o.value) and key_ok(o.slice):
+                ids = node_ids(d)
+                writes = [m.id for m in g.nodes.values() if m.kind == "stmt" and isinstance(m.ast, ast.Assign) and any(
+                    isinstance(t_, ast.Subscript) and _is_registry(t_.value) for t_ in m.ast.targets)]
+                for i in ids:
+                    known = membership_fact(path_facts(g, i), lambda e: key_ok(e), lambda e: "_retry_requests" in unparse(e))
+                    if not (known is True or (bool(writes) and g.dominates(writes, i))):
+                        return False
+                if not ids:
+                    return False
+                continue
+            if isinstance(o, ast.Call) and resolves_to(p, f, o, [REQ], attr_fallback=False):
+                stores = {m.id for m in g.nodes.values() if m.kind == "stmt" and isinstance(m.ast, ast.Assign) and isinstance(m.ast.value, ast.Name)
+                          and m.ast.value.id == nm and any(isinstance(t_, ast.Subscript) and _is_registry(t_.value) and key_ok(t_.slice) for t_ in m.ast.targets)}
+                if survives_unless(nm, d, stores, lambda i, k: False):
+                    return False  # the fresh request can be returned without having been registered
+                continue
+            if isinstance(o, ast.Name) and o.id != nm:
+                if not go(o.id, d.stmt if d.kind != "walrus" else d.value, depth - 1):
+                    return False
+                continue
+            return False
+        return True
+
+    return go(name, ret.ast, 3)
+
+
 def r3(ctx):
     p = ctx.prog
     f = p.func(f"{RFM}.get_request")
@@ -319,6 +440,9 @@ def r3(ctx):
             writes_before = [m.id for m in g.nodes.values() if m.kind == "stmt" and isinstance(m.ast, ast.Assign) and any(
                 isinstance(t_, ast.Subscript) and unparse(t_.value).endswith("._retry_requests") for t_ in m.ast.targets)]
             ok = known is True or (bool(writes_before) and g.dominates(writes_before, n.id))
+        if not ok and isinstance(v, ast.Name):
+            # `request = registry.get(key)` guarded by a None test, with explicit insertion of the fresh request
+            ok = _local_yields_registered(p, f, v.id, n)
         ctx.ob("R3", "get_request returns the request registered for the job", ok, func=f, node=n.ast, instance=f"get_request:return:{unparse(n.ast)[:60]}",
                message=f"`{unparse(n.ast)}` does not return the registered request")
     # no path of get_request falls off the end (returning None instead of a request)
@@ -656,6 +780,8 @@ FLOORS = {"R1": 5, "R2": 2, "R3": 8, "R4": 4, "R5": 9, "R6": 14, "R7": 1}
 _REC = f"{RFM}._recover"
 _SYNC = f"{RFM}._synchronize_workflows"
 _GET = f"{RFM}.get_request"
+_GET_BODY = ("    if job_name in self._retry_requests.keys():\n        return self._retry_requests[job_name]\n    else:\n"
+             "        return self._retry_requests.setdefault(job_name, RecoveryRequest(job_name))")
 
 # the text between the is_recovering test of _synchronize_workflows and the synchronising call of _recover (the two
 # methods are adjacent in the class): a variant that changes both ends needs it as one contiguous span
@@ -786,5 +912,27 @@ VARIANTS = [
     V("logging in get_request", FM_FILE, _GET, "    else:\n        return self._retry_requests.setdefault", "    else:\n        logger.debug('new request')\n        return self._retry_requests.setdefault", None),
     V("get_request with explicit insertion", FM_FILE, _GET, "        return self._retry_requests.setdefault(job_name, RecoveryRequest(job_name))",
       "        self._retry_requests[job_name] = RecoveryRequest(job_name)\n        return self._retry_requests[job_name]", None),
+    # ---- refactoring B14-8: membership test + setdefault replaced by dict.get, a None test and explicit insertion
+    V("get_request: dict.get, None test, explicit insertion (walrus)", FM_FILE, _GET, _GET_BODY,
+      "    if (request := self._retry_requests.get(job_name)) is None:\n        request = RecoveryRequest(job_name)\n        self._retry_requests[job_name] = request\n    return request", None),
+    V("get_request: dict.get with a guard clause on the found request", FM_FILE, _GET, _GET_BODY,
+      "    request = self._retry_requests.get(job_name)\n    if request is not None:\n        return request\n    request = RecoveryRequest(job_name)\n"
+      "    self._retry_requests[job_name] = request\n    return request", None),
+    V("get_request: dict.get with a truthiness test and a key alias", FM_FILE, _GET, _GET_BODY,
+      "    key = job_name\n    found = self._retry_requests.get(key)\n    if not found:\n        found = RecoveryRequest(key)\n        self._retry_requests[key] = found\n    result = found\n    return result", None),
+    V("get_request: dict.get form with the None test inverted", FM_FILE, _GET, _GET_BODY,
+      "    if (request := self._retry_requests.get(job_name)) is not None:\n        request = RecoveryRequest(job_name)\n        self._retry_requests[job_name] = request\n    return request", "R3"),
+    V("get_request: dict.get form never inserts the fresh request", FM_FILE, _GET, _GET_BODY,
+      "    if (request := self._retry_requests.get(job_name)) is None:\n        request = RecoveryRequest(job_name)\n    return request", "R3"),
+    V("get_request: dict.get form inserts only when debugging", FM_FILE, _GET, _GET_BODY,
+      "    if (request := self._retry_requests.get(job_name)) is None:\n        request = RecoveryRequest(job_name)\n        if logger.isEnabledFor(logging.DEBUG):\n"
+      "            self._retry_requests[job_name] = request\n    return request", "R3"),
+    V("get_request: dict.get form returns the look-up result unguarded", FM_FILE, _GET, _GET_BODY,
+      "    request = self._retry_requests.get(job_name)\n    if job_name.startswith('/'):\n        request = RecoveryRequest(job_name)\n        self._retry_requests[job_name] = request\n    return request", "R3"),
+    V("get_request: dict.get form looks another job up", FM_FILE, _GET, _GET_BODY,
+      "    if (request := self._retry_requests.get(self.__class__.__name__)) is None:\n        request = RecoveryRequest(job_name)\n        self._retry_requests[job_name] = request\n    return request", "R3"),
+    V("get_request: dict.get form replaces the fresh request after registering it", FM_FILE, _GET, _GET_BODY,
+      "    if (request := self._retry_requests.get(job_name)) is None:\n        request = RecoveryRequest(job_name)\n        self._retry_requests[job_name] = request\n"
+      "        request = RecoveryRequest(job_name)\n    return request", "R3"),
     V("status set as a frozenset literal order", FM_FILE, f"{RFM}.is_recovering", "(Status.ROLLBACK, Status.RUNNING, Status.FIREABLE)", "[Status.FIREABLE, Status.ROLLBACK, Status.RUNNING]", None),
 ]
